@@ -85,6 +85,14 @@ impl<'a> FullnameSerializer<'a> {
             .push(FullnameInfo::new(defined_namespaces, current_fullname_info));
     }
 
+    // is there a default namespace (empty prefix bound to a real namespace)
+    // in scope?
+    pub(crate) fn has_default_namespace(&self) -> bool {
+        self.top().all_namespaces.iter().any(|(prefix, namespace)| {
+            *prefix == self.xot.empty_prefix() && *namespace != self.xot.no_namespace()
+        })
+    }
+
     pub(crate) fn has_empty_prefix(&self, namespace_id: NamespaceId) -> bool {
         let prefix_id = self
             .top()
